@@ -29,6 +29,15 @@
                                                            types.Sequence.decode_raw
    monitors       Trace_*                        all       total monitors over recorded traces of the real code (TraceBase)
 
+   Pin* constants (a repaired behaviour switched back on; each has a self-test configuration that MUST produce a counterexample):
+     Walk: PinFirstOrder PinCollapse PinNoProgress PinFirstUnguarded   Ops: PinSecondRead PinErrIndex PinGetNextEnd PinErrBeforeId PinV1ErrBeforeCommunity
+     UsmDefs: PinAuthFlagTrusted PinConfirmedOnlyGet PinReserialise PinLazyErrorFirst PinStatsInResponse   UsmTime: PinFrozen
+     Transport: PinNoFinallyClose   Concurrent: PinSharedRequestId PinSingleSlotMsgId PinSharedSeen   Config: PinIsInstance PinRestoreCfgOnly
+     Trap: PinBrokenDecode PinStopOnError   Decoder: PinNoGuard
+   One lesson runs through five of the repairs (F21-F25): the PDU is decoded lazily and raises the exception of its error-status at first
+   touch, and a walk reads NoSuchOID as "subtree exhausted".  Ops!WalkEndSound and UsmDefs!Caller state the consequence at the model
+   level: that exception may only ever come from the authenticated, matching response to the request actually sent.
+
    The constant-free layers are instantiated below so that the twenty properties can be named in one place; the
    state machines are checked through their own MC_* / generated configurations (harness/props/cNN.py). *)
 EXTENDS Naturals, Sequences
